@@ -2,6 +2,12 @@ import Resvg.Props.C20
 #print axioms Resvg.Props.C20.ceilI_ge
 #print axioms Resvg.Props.C20.ceilI_lt
 #print axioms Resvg.Props.C20.C20_width_rule
+#print axioms Resvg.Props.C20.C20_height_rule
+#print axioms Resvg.Props.C20.C20_zoom_rule
 #print axioms Resvg.Props.C20.C20_size_rule_fits
 #print axioms Resvg.Props.C20.C20_original
 #print axioms Resvg.Props.C20.C20_zero_refused
+#print axioms Resvg.Props.C20.toIntSize_nat
+#print axioms Resvg.Props.C20.C20_export_object_fills_image
+#print axioms Resvg.Props.C20.C20_export_page_geometry
+#print axioms Resvg.Props.C20.C20_old_export_wrong
